@@ -977,6 +977,10 @@ func (c *control) getEFGarg(ff *floatFormatter) {
 }
 
 func roundBytes(digits []byte, max int) []byte {
+	if max < 0 {
+		// Less than half of the last place that is kept, nothing is left.
+		return digits[:0]
+	}
 	diff := len(digits) - max
 	if 0 < diff {
 	round:
